@@ -81,7 +81,7 @@ class C09(Prop):
     floors = {'quick': (200, 60), 'thorough': (4000, 1000)}
     must_reach = []
     quick_cases = 1500
-    thorough_cases = 200000
+    thorough_cases = 800000
 
     def shrinkable(self, case):
         return False
